@@ -222,6 +222,9 @@ public:
 	}
 	void lock()
 	{
+#ifdef ASL_VERIF
+		asl_verif_point(4, &_mutex);
+#endif
 		pthread_mutex_lock(&_mutex);
 	}
 	bool trylock()
@@ -230,6 +233,9 @@ public:
 	}
 	void unlock()
 	{
+#ifdef ASL_VERIF
+		asl_verif_point(5, &_mutex);
+#endif
 		pthread_mutex_unlock(&_mutex);
 	}
 	friend class Condition;
